@@ -290,9 +290,11 @@ structure Border where
 def Border.new (m : Machine) : Border :=
   { machine := m, buf := Array.replicate (320 * 240) pxUnpainted }
 
-/-- `clocks_origin` of `next_border_pixel` -/
-def Machine.borderOrigin (m : Machine) : Nat :=
-  m.firstPixel - 8 * borderRows * m.clocksLine - borderCols * clocksPerCol + ulaBeamShift
+/-- `clocks_origin` of `next_border_pixel`:
+`clocks_first_pixel - 8 * BORDER_ROWS * clocks_line - BORDER_COLS * CLOCKS_PER_COL + clocks_ula_beam_shift` -/
+def Machine.borderOrigin : Machine → Nat
+  | .k48 => 8945    -- 14336 - 8 * 3 * 224 - 4 * 4 + 1
+  | .k128 => 8875   -- 14362 - 8 * 3 * 228 - 4 * 4 + 1
 
 /-- `next_border_pixel` : (line, pixel, frame_end) -/
 def nextBorderPixel (m : Machine) (clocks : Nat) : Nat × Nat × Bool :=
